@@ -571,6 +571,10 @@ impl<'a, T: QueryToRelationTranslator + Copy + Clone> VisitedQueryRelations<'a, 
         let (named_expr_from_select, new_columns) =
             self.try_named_expr_columns_from_select_items(columns, select_items, &from)?;
         named_exprs.extend(named_expr_from_select.into_iter());
+        // The output columns have different names
+        if let Some(name) = named_exprs.iter().map(|(name, _)| name).duplicates().next() {
+            return Err(Error::other(format!("Ambiguous column name: {name}")));
+        }
         // Prepare the GROUP BY
         let group_by = match group_by {
             ast::GroupByExpr::All => return Err(Error::other("GROUP BY ALL is not supported")),
